@@ -35,6 +35,15 @@ KF_C03_void(ev) == ev.hasVoid /\ ev.sameLinesModuloIds /\ ev.h2 = ev.h3
 (* the leaf type change.                                                                                                       *)
 KF_C13_union(ev) == ev.inUnion /\ (\E i \in 1..Len(ev.kinds) : ev.kinds[i] = "member-type") /\ ev.exitDefault = 0 /\ ev.exitLeaf = 4
 
+(* C07: the insertion of a non-virtual member function is categorized NON_VIRT_MEM_FUN_CHANGE (filtered by default), but *)
+(* no reporter ever lists it: with --harmless the comparison still prints nothing and exits 0.                              *)
+KF_C07_method(ev) == ev.kinds = <<"method-add">> /\ ev.exit = 0 /\ ev.hexit = 0
+
+(* C43: DWARF type units as gcc emits them (-fdebug-types-section) are not supported by the DWARF reader: named enums and   *)
+(* aggregates referenced through DW_FORM_ref_sig8 come out anonymous or incomplete (DWARF 4, .debug_types) and DWARF 5 type  *)
+(* units make get_die_from_offset abort.  Only events whose second build uses gcc with -fdebug-types-section qualify.        *)
+KF_C43_type_units(ev) == ev.typeUnits /\ ev.comp = "gcc"
+
 (* C04: FALSE unless listed *)
 KF_C04_unescaped(ev) == FALSE
 ====================================================================================================
